@@ -594,3 +594,39 @@ pub proof fn lit_listing_ignores_order<C: ServerContext>(ma: BTreeMap<String, Bo
         }
     }
 }
+
+// ---- "under its method": which slot of a path item an operation for a method name goes to ----
+pub enum Slot { Get, Put, Post, Delete, Options, Head, Patch, Trace }
+/// the slot NAMED by the method (from the property: an operation is listed under its own method)
+pub open spec fn slot_of(name: Seq<char>) -> Option<Slot> {
+    if name == "GET"@ { Some(Slot::Get) } else if name == "PUT"@ { Some(Slot::Put) } else if name == "POST"@ { Some(Slot::Post) }
+    else if name == "DELETE"@ { Some(Slot::Delete) } else if name == "OPTIONS"@ { Some(Slot::Options) } else if name == "HEAD"@ { Some(Slot::Head) }
+    else if name == "PATCH"@ { Some(Slot::Patch) } else if name == "TRACE"@ { Some(Slot::Trace) } else { None }
+}
+pub open spec fn read_slot(p: PathItem, s: Slot) -> Option<Operation> {
+    match s { Slot::Get => p.get, Slot::Put => p.put, Slot::Post => p.post, Slot::Delete => p.delete,
+              Slot::Options => p.options, Slot::Head => p.head, Slot::Patch => p.patch, Slot::Trace => p.trace }
+}
+pub open spec fn write_slot(p: PathItem, s: Slot, v: Option<Operation>) -> PathItem {
+    match s {
+        Slot::Get => PathItem { get: v, ..p }, Slot::Put => PathItem { put: v, ..p }, Slot::Post => PathItem { post: v, ..p },
+        Slot::Delete => PathItem { delete: v, ..p }, Slot::Options => PathItem { options: v, ..p }, Slot::Head => PathItem { head: v, ..p },
+        Slot::Patch => PathItem { patch: v, ..p }, Slot::Trace => PathItem { trace: v, ..p },
+    }
+}
+pub proof fn method_names_differ()
+    ensures "GET"@ != "PUT"@, "GET"@ != "POST"@, "GET"@ != "DELETE"@, "GET"@ != "OPTIONS"@, "GET"@ != "HEAD"@, "GET"@ != "PATCH"@, "GET"@ != "TRACE"@,
+        "PUT"@ != "POST"@, "PUT"@ != "DELETE"@, "PUT"@ != "OPTIONS"@, "PUT"@ != "HEAD"@, "PUT"@ != "PATCH"@, "PUT"@ != "TRACE"@,
+        "POST"@ != "DELETE"@, "POST"@ != "OPTIONS"@, "POST"@ != "HEAD"@, "POST"@ != "PATCH"@, "POST"@ != "TRACE"@,
+        "DELETE"@ != "OPTIONS"@, "DELETE"@ != "HEAD"@, "DELETE"@ != "PATCH"@, "DELETE"@ != "TRACE"@,
+        "OPTIONS"@ != "HEAD"@, "OPTIONS"@ != "PATCH"@, "OPTIONS"@ != "TRACE"@,
+        "HEAD"@ != "PATCH"@, "HEAD"@ != "TRACE"@, "PATCH"@ != "TRACE"@,
+{
+    reveal_strlit("GET"); reveal_strlit("PUT"); reveal_strlit("POST"); reveal_strlit("DELETE");
+    reveal_strlit("OPTIONS"); reveal_strlit("HEAD"); reveal_strlit("PATCH"); reveal_strlit("TRACE");
+    assert("GET"@.len() == 3 && "PUT"@.len() == 3 && "POST"@.len() == 4 && "DELETE"@.len() == 6 && "OPTIONS"@.len() == 7
+        && "HEAD"@.len() == 4 && "PATCH"@.len() == 5 && "TRACE"@.len() == 5);
+    assert("GET"@[0] == 'G' && "PUT"@[0] == 'P');
+    assert("POST"@[0] == 'P' && "HEAD"@[0] == 'H');
+    assert("PATCH"@[0] == 'P' && "TRACE"@[0] == 'T');
+}
